@@ -69,6 +69,9 @@ func rawKey(item hclsyntax.ObjectConsItem) (string, bool) {
 	return "", false
 }
 
+// RawObjectKey exposes rawKey: the name of an item written with a naked or plainly quoted key.
+func RawObjectKey(item hclsyntax.ObjectConsItem) (string, bool) { return rawKey(item) }
+
 func (vm valueModel) cons(c m.ConsM, expr hclsyntax.Expression, depth int) (ValueTokens, bool) {
 	var out ValueTokens
 	if depth > 8 || expr == nil {
